@@ -1586,7 +1586,12 @@ func AggrFunExpr(query *Query, current Map, expr sqlparser.AggrFunc, opts ...Exp
 	key := sqlparser.String(expr)
 	rs, ok := query.singletonExecutions[key]
 	if !ok {
-		slice, err := AggrFuncArgReader(query, map[string]any{"*": query.from}, sqlparser.Exprs{Exprs: expr.GetArgs()})
+		// the rows that passed WHERE (handed over by ExecSelect), else every row of the table
+		rows := query.from
+		if filtered, ok := current["*"].([]any); ok {
+			rows = filtered
+		}
+		slice, err := AggrFuncArgReader(query, map[string]any{"*": rows}, sqlparser.Exprs{Exprs: expr.GetArgs()})
 		if err != nil {
 			return nil, err
 		}
@@ -1752,7 +1757,8 @@ func IsSelectAllAggregate(query *Query) bool {
 func ExecSelect(query *Query, current []any) ([]any, error) {
 	copy := make([]any, 0)
 	if IsSelectAllAggregate(query) {
-		rs, err := SelectExpr(query, nil, &query.selectDefinition)
+		// the aggregates are computed over the rows this stage was given (those that passed WHERE)
+		rs, err := SelectExpr(query, Map{"*": current}, &query.selectDefinition)
 		if err != nil {
 			return nil, err
 		}
